@@ -312,7 +312,7 @@ def evaluate(ctx, impl_lines, model_lines, ncases):
     # ---- every (case, k) must have been answered through all three ways
     missing = 0
     for k in model:
-        if seen_ways.get(k, set()) != set(WAYS):
+        if seen_ways.get(k, set()) - {"eol"} != set(WAYS):      # "eol" (line endings consumed by the eol rule) is an optional way
             missing += 1
             if missing <= 5:
                 ctx.diff("implementation did not report all of W=" + ",".join(WAYS), " ".join(str(x) for x in k),
